@@ -527,7 +527,7 @@ fn gen_parser(rng: &mut Rng, cfg: &GenCfg, sw: &Swarm, n: usize) -> ValParser {
         2 => {
             if rng.chance(1, 6) {
                 // bounds on the extremes of the 64-bit types, exclusive and empty ranges
-                ValParser::Edge(rng.below(12) as u8)
+                ValParser::Edge(rng.below(15) as u8)
             } else if rng.coin() {
                 ValParser::U16
             } else {
